@@ -129,7 +129,16 @@ func (c Config) Build() goldmark.Markdown {
 				if d == nil {
 					return []byte("nodoc-")
 				}
-				return []byte(fmt.Sprintf("page%d-", d.ChildCount()))
+				// a pure function of the document that differs between most documents: the
+				// total length of its text segments
+				sum := 0
+				_ = gast.Walk(d, func(x gast.Node, entering bool) (gast.WalkStatus, error) {
+					if t, ok := x.(*gast.Text); ok && entering {
+						sum += t.Segment.Stop - t.Segment.Start
+					}
+					return gast.WalkContinue, nil
+				})
+				return []byte(fmt.Sprintf("page%d-%d-", d.ChildCount(), sum%97))
 			})))
 		case "titles":
 			exts = append(exts, extension.NewFootnote(extension.WithFootnoteLinkTitle("to ^^ (%%)"), extension.WithFootnoteBacklinkTitle("back %% of ^^"),
